@@ -78,6 +78,13 @@ const SHAPES: &[&str] = &[
     "1. 1. W\n   2.\n   3. W\n",
     "- -\n  - W\n",
     "> - - W\n>   -\n",
+    // a comment whose second line would be a list item once its indentation is gone; lists and quotes that hold nothing
+    "W <!-- W\n    - W -->\n",
+    "- W <!-- W\n      - W -->\n",
+    "- W\n\n* >\n\n- W\n",
+    "- W\n\n* > <div>W</div>\n\n- W\n",
+    "> - >\n\nW\n",
+    "1. W\n\n>\n\n1. W\n",
 ];
 
 pub fn shapes(rng: &mut Rng, max: usize) -> String {
